@@ -7,6 +7,7 @@ import (
 	"math/big"
 	"reflect"
 	"strings"
+	"unsafe"
 
 	"github.com/kardiachain/go-kardia/lib/common"
 	krlp "github.com/kardiachain/go-kardia/lib/rlp"
@@ -55,6 +56,67 @@ type PtrS struct {
 }
 type Rows []Inner
 type ArrU [2]uint64
+
+// Structs with fields the codec does not see (rlp:"-" and unexported) at every position relative to
+// optional / tail / nil-tagged fields.  For these types (fullTypes) the abstract value lists ALL Go
+// fields in declaration order: the ignored ones are part of the Go value - the encoder must not look
+// at them, the decoder must not touch them and must not let them shift the other fields.
+type IgA struct {
+	A     uint64
+	Cache uint64 `rlp:"-"`
+	B     uint64 `rlp:"optional"`
+	C     uint64 `rlp:"optional"`
+}
+type IgB struct {
+	hidden uint64
+	A      uint64
+	x      uint64
+	y      bool
+	B      *big.Int `rlp:"optional"`
+	z      uint64
+	C      uint64 `rlp:"optional"`
+	W      uint64 `rlp:"-"`
+}
+type IgT struct {
+	X uint64 `rlp:"-"`
+	A uint64
+	h uint64
+	R []uint64 `rlp:"tail"`
+	t uint64
+}
+type IgN struct {
+	c    uint64
+	P    *uint64 `rlp:"nil"`
+	Skip uint64  `rlp:"-"`
+	Q    *Inner  `rlp:"nil"`
+	d    bool
+}
+type OptIn struct {
+	X     uint64
+	Cache uint64 `rlp:"-"`
+	Y     uint64 `rlp:"optional"`
+}
+type IgE struct {
+	A uint64
+	OptIn
+	n uint64
+	P *OptIn `rlp:"nil"`
+	Z uint64 `rlp:"optional"`
+}
+type OnlyOpt struct {
+	O uint64 `rlp:"optional"`
+}
+type IgOnly struct {
+	h uint64
+	O uint64 `rlp:"optional"`
+	T uint64 `rlp:"-"`
+}
+
+// fullTypes: struct types whose abstract values list every Go field (see above).
+var fullTypes = map[reflect.Type]bool{
+	reflect.TypeOf(IgA{}): true, reflect.TypeOf(IgB{}): true, reflect.TypeOf(IgT{}): true, reflect.TypeOf(IgN{}): true,
+	reflect.TypeOf(OptIn{}): true, reflect.TypeOf(IgE{}): true, reflect.TypeOf(OnlyOpt{}): true, reflect.TypeOf(IgOnly{}): true,
+}
 
 // mirrors of the unexported wire structs of /repo/types (same field types, same tags, same order);
 // used to decode with the generic machinery next to the real types
@@ -119,6 +181,8 @@ var schemaTypes = map[string]reflect.Type{
 	"PtrS":   reflect.TypeOf(PtrS{}),
 	"Rows":   reflect.TypeOf(Rows(nil)),
 	"ArrU":   reflect.TypeOf(ArrU{}),
+	"IgA":    reflect.TypeOf(IgA{}), "IgB": reflect.TypeOf(IgB{}), "IgT": reflect.TypeOf(IgT{}), "IgN": reflect.TypeOf(IgN{}),
+	"OptIn": reflect.TypeOf(OptIn{}), "IgE": reflect.TypeOf(IgE{}), "OnlyOpt": reflect.TypeOf(OnlyOpt{}), "IgOnly": reflect.TypeOf(IgOnly{}),
 	// chain types that the generic machinery can handle directly
 	"account":   reflect.TypeOf(types.StateAccount{}),
 	"slim":      reflect.TypeOf(types.SlimAccount{}),
@@ -135,22 +199,90 @@ var (
 	rawType    = reflect.TypeOf(krlp.RawValue(nil))
 )
 
-// rlpFields lists the fields of a struct type the codec sees (exported, not rlp:"-").
+// ignoredField: the codec does not see the field (unexported or rlp:"-").
+func ignoredField(f reflect.StructField) bool {
+	if f.PkgPath != "" {
+		return true
+	}
+	for _, tag := range strings.Split(f.Tag.Get("rlp"), ",") {
+		if strings.TrimSpace(tag) == "-" {
+			return true
+		}
+	}
+	return false
+}
+
+// rlpFields lists the fields of a struct type that appear in its abstract value: the ones the codec
+// sees, or - for fullTypes - all of them.
 func rlpFields(t reflect.Type) []int {
 	var out []int
 	for i := 0; i < t.NumField(); i++ {
-		f := t.Field(i)
-		if f.PkgPath != "" {
-			continue
-		}
-		skip := false
-		for _, tag := range strings.Split(f.Tag.Get("rlp"), ",") {
-			if strings.TrimSpace(tag) == "-" {
-				skip = true
-			}
-		}
-		if !skip {
+		if fullTypes[t] || !ignoredField(t.Field(i)) {
 			out = append(out, i)
+		}
+	}
+	return out
+}
+
+// settable returns v in a form that can be Set even if it was reached through an unexported field.
+func settable(v reflect.Value) reflect.Value {
+	if v.CanSet() {
+		return v
+	}
+	return reflect.NewAt(v.Type(), unsafe.Pointer(v.UnsafeAddr())).Elem()
+}
+
+// sentinel / sentinelTree: what prepopulate puts into scalar fields and how it reads back.
+func sentinelTree(t reflect.Type) interface{} {
+	switch {
+	case t.Kind() >= reflect.Uint && t.Kind() <= reflect.Uintptr:
+		return "ee"
+	case t.Kind() == reflect.Bool:
+		return true
+	}
+	return nil
+}
+
+// prepopulate fills every uint / bool field of a struct value (recursively through struct-valued
+// fields, not through pointers) with a sentinel: decoding into such a value must overwrite or zero
+// every codec field and must leave the ignored ones alone.
+func prepopulate(v reflect.Value) {
+	if v.Kind() != reflect.Struct || !fullTypes[v.Type()] {
+		return
+	}
+	for i := 0; i < v.NumField(); i++ {
+		f := settable(v.Field(i))
+		switch {
+		case f.Kind() >= reflect.Uint && f.Kind() <= reflect.Uintptr:
+			f.SetUint(0xee)
+		case f.Kind() == reflect.Bool:
+			f.SetBool(true)
+		case f.Kind() == reflect.Struct:
+			prepopulate(f)
+		}
+	}
+}
+
+// keepIgnored rewrites the tree expected after decoding into a FRESH value into the tree expected
+// after decoding into a prepopulated one: ignored fields hold the sentinel.
+func keepIgnored(t reflect.Type, tree interface{}) interface{} {
+	if t.Kind() != reflect.Struct || !fullTypes[t] {
+		return tree
+	}
+	fs, ok := tree.([]interface{})
+	if !ok || len(fs) != t.NumField() {
+		return tree
+	}
+	out := make([]interface{}, len(fs))
+	for i := range fs {
+		f := t.Field(i)
+		switch {
+		case ignoredField(f) && sentinelTree(f.Type) != nil:
+			out[i] = sentinelTree(f.Type)
+		case f.Type.Kind() == reflect.Struct:
+			out[i] = keepIgnored(f.Type, fs[i])
+		default:
+			out[i] = fs[i]
 		}
 	}
 	return out
@@ -418,7 +550,7 @@ func build(t reflect.Type, raw json.RawMessage) (reflect.Value, error) {
 			if err != nil {
 				return v, err
 			}
-			v.Field(fi).Set(f)
+			settable(v.Field(fi)).Set(f)
 		}
 		return v, nil
 	case t.Kind() == reflect.Slice || t.Kind() == reflect.Array:
